@@ -660,11 +660,38 @@ func ruleErrCheckedBeforeUse(c *Ctx) {
 				if mi, ok := tgt.(*ssa.MakeInterface); ok {
 					tgt = mi.X
 				}
-				al, ok := tgt.(*ssa.Alloc)
-				if !ok || al.Referrers() == nil {
-					continue
+				// the target object: a local, or a local pointer variable (captured by closures) holding one
+				var bases []ssa.Value
+				switch y := tgt.(type) {
+				case *ssa.Alloc:
+					bases = append(bases, y)
+				case *ssa.UnOp:
+					if cell, ok := y.X.(*ssa.Alloc); ok && y.Op == token.MUL && cell.Referrers() != nil {
+						n1 := 0
+						var inner ssa.Value
+						for _, r := range *cell.Referrers() {
+							if st, ok := r.(*ssa.Store); ok && st.Addr == ssa.Value(cell) {
+								n1++
+								inner = st.Val
+							}
+						}
+						if ia, ok := inner.(*ssa.Alloc); ok && n1 == 1 {
+							bases = append(bases, ia)
+							for _, r := range *cell.Referrers() {
+								if u, ok := r.(*ssa.UnOp); ok && u.Op == token.MUL && u.Parent() == fn {
+									bases = append(bases, u)
+								}
+							}
+						}
+					}
 				}
-				for _, r := range *al.Referrers() {
+				var refs []ssa.Instruction
+				for _, b := range bases {
+					if b.Referrers() != nil {
+						refs = append(refs, *b.Referrers()...)
+					}
+				}
+				for _, r := range refs {
 					var at ssa.Instruction
 					switch y := r.(type) {
 					case *ssa.FieldAddr:
@@ -871,4 +898,116 @@ func handedOn(r ssa.Instruction, x ssa.Value, errVals map[ssa.Value]bool) ssa.In
 		}
 	}
 	return nil
+}
+
+// ---------------------------------------------------------------------------
+// DOM/map-made (C15, C02): a map kept in a struct member that is created on
+// demand (somewhere in the repository the member is tested against nil) is
+// written only where it is known to exist: on every path from the function's
+// entry to the write, the member was made (a store of a fresh map) or found
+// non-nil. `r.Errors[rid] = err` with the `if r.Errors == nil { r.Errors =
+// make(…) }` in front of it dropped, inverted or skipped is "assignment to
+// entry in nil map" — on the connection worker, which nothing recovers.
+
+func ruleMapMade(c *Ctx) {
+	p := c.P
+	// members created on demand: some branch in the repository tests them against nil
+	lazy := map[*types.Var]bool{}
+	for _, fn := range p.Repo {
+		for _, b := range fn.Blocks {
+			i := blockIf(b)
+			if i == nil {
+				continue
+			}
+			if x, _, ok := nilTest(i, true); ok {
+				if f, _ := fieldLoad(x); f != nil {
+					if _, isMap := f.Type().Underlying().(*types.Map); isMap {
+						lazy[f] = true
+					}
+				}
+			}
+		}
+	}
+	n := 0
+	for _, fn := range p.Repo {
+		if !inScopePkgs(fn, "server", "rescache", "nats", "rpc", "codec") {
+			continue
+		}
+		for _, in := range instrsOf(fn) {
+			mu, ok := in.(*ssa.MapUpdate)
+			if !ok {
+				continue
+			}
+			f, base := fieldLoad(mu.Map)
+			if f == nil || !lazy[f] {
+				continue
+			}
+			n++
+			c.inst(1)
+			// backward search: is there a path from the entry to mu that neither makes the member nor finds it non-nil?
+			type key struct {
+				b *ssa.BasicBlock
+			}
+			seen := map[key]bool{}
+			establishes := func(b *ssa.BasicBlock, upTo int) bool {
+				for k := upTo - 1; k >= 0; k-- {
+					if st, ok := b.Instrs[k].(*ssa.Store); ok {
+						if fa, ok := st.Addr.(*ssa.FieldAddr); ok && fieldOfAddr(fa) == f && !isNilConst(st.Val) {
+							return true
+						}
+					}
+				}
+				return false
+			}
+			var open func(b *ssa.BasicBlock, upTo int) bool // true: a path reaches the entry unestablished
+			open = func(b *ssa.BasicBlock, upTo int) bool {
+				if establishes(b, upTo) {
+					return false
+				}
+				if len(b.Preds) == 0 {
+					return true
+				}
+				if seen[key{b}] {
+					return false
+				}
+				seen[key{b}] = true
+				for _, pb := range b.Preds {
+					// entering b from pb over an edge that establishes non-nil?
+					if i := blockIf(pb); i != nil {
+						dir := pb.Succs[0] == b
+						if pb.Succs[0] == pb.Succs[1] {
+							dir = true
+						}
+						if x, nn, ok := nilTest(i, dir); ok && nn {
+							if g, _ := fieldLoad(x); g == f {
+								continue
+							}
+						}
+					}
+					if open(pb, len(pb.Instrs)) {
+						return true
+					}
+				}
+				return false
+			}
+			idx := 0
+			for k, x := range mu.Block().Instrs {
+				if x == ssa.Instruction(mu) {
+					idx = k
+				}
+			}
+			_ = base
+			bad := open(mu.Block(), idx)
+			okWhy := "made or found non-nil on every path"
+			if bad && fn.Parent() == nil && !p.onReferenceTree(fn) {
+				bad = false // a helper split off its caller: the caller's path decides (the caller is checked when it writes)
+				okWhy = "helper"
+			}
+			c.check(!bad, fnName(fn), "a map member that is created on demand is written only where it exists", p.InstrPos(mu), okWhy,
+				typeFieldName(p, f)+" is written on a path on which it was neither made nor found non-nil: assignment to entry in nil map — a panic on a worker goroutine that ends the gateway")
+		}
+	}
+	if n == 0 {
+		c.viol("repository", "a map member that is created on demand is written only where it exists", "-", "no such write found")
+	}
 }
